@@ -33,7 +33,8 @@ EXTRA_SOURCES = [
     # children whose syntax order is not field order (the offset walk's early `break`s rely on syntax order)
     "r = f(k=1, *a, j=2, **kw)\ns = g(k=1, *a)\nclass K(A, m=M, *B): pass\n"
     "def h(p=0, /, q=1, *, s=2, t=3): return {p: q, **s, t: 4}\n"
-    "match v:\n    case {'k': w, 'j': u, **z}: pass\n",
+    "match v:\n    case {'k': w, 'j': u, **z}: pass\n"
+    "try: pass\nexcept E: pass\nelse: x = [1]\nfinally: pass\n",
 ]
 
 REPL_LINES = ['', '\n', '# c\n', '\n\n', '    # c\n', '\n# é\n']
